@@ -90,12 +90,16 @@ type vconn struct {
 	plan  *SQLPlan
 }
 
-func (c *vconn) Prepare(q string) (driver.Stmt, error) { return c.PrepareContext(context.Background(), q) }
-func (c *vconn) Close() error                          { return c.inner.Close() }
-func (c *vconn) Begin() (driver.Tx, error)             { return c.BeginTx(context.Background(), driver.TxOptions{}) }
-func (c *vconn) Ping(ctx context.Context) error        { return c.inner.Ping(ctx) }
+func (c *vconn) Prepare(q string) (driver.Stmt, error) {
+	return c.PrepareContext(context.Background(), q)
+}
+func (c *vconn) Close() error { return c.inner.Close() }
+func (c *vconn) Begin() (driver.Tx, error) {
+	return c.BeginTx(context.Background(), driver.TxOptions{})
+}
+func (c *vconn) Ping(ctx context.Context) error         { return c.inner.Ping(ctx) }
 func (c *vconn) ResetSession(ctx context.Context) error { return nil }
-func (c *vconn) IsValid() bool                         { return true }
+func (c *vconn) IsValid() bool                          { return true }
 
 func (c *vconn) PrepareContext(ctx context.Context, q string) (driver.Stmt, error) {
 	_, h := c.plan.step(SQLPrepare)
